@@ -306,13 +306,10 @@ class Profile:
             raise AldyException(f"Profile {profile} not compatible with {gene.genome}")
         if cn_region is None:
             cn_region = GRange(*prof["neutral"][gene.genome])
-        return Profile(
-            profile,
-            cn_region,
-            prof,
-            neutral_value=prof["neutral"].get("value"),
-            **dict(prof.get("options") or {}, **params),
-        )
+        options = dict(prof.get("options") or {}, **params)
+        # (an explicitly given neutral value wins over the profile's own)
+        options.setdefault("neutral_value", prof["neutral"].get("value"))
+        return Profile(profile, cn_region, prof, **options)
 
     @staticmethod
     def get_sam_profile_data(
